@@ -11,6 +11,9 @@ import QModel.ProtocolIO
 import QModel.CalcIO
 import QModel.SeedIO
 import QModel.SchedIO
+import QModel.VerletIO
+import QModel.ConstraintsIO
+import QModel.SerialIO
 /-! Model driver: one operation per line on stdin, one canonical result line on stdout.
     Run with `lake env lean --run Driver.lean`. -/
 
@@ -31,6 +34,9 @@ def dispatch (line : String) : String :=
     else if cmd = "mc" then MC.handle ws
     else if cmd = "seed" || cmd = "seedrt" || cmd = "seedrun" then Seed.handle ws
     else if cmd = "yield" || cmd = "step" || cmd = "addmoves" || cmd = "rng" then Sched.handle ws
+    else if cmd = "verlet" || cmd = "mbdist" || cmd = "hmove" then Verlet.IO.handle ws
+    else if cmd = "cadj" || cmd = "fixrot" || cmd = "c12trial" then Constr.IO.handle ws
+    else if cmd.startsWith "c08." || cmd.startsWith "c07." then Ser.IO.handle ws
     else "bad-op"
 
 partial def loop (h : IO.FS.Stream) (out : IO.FS.Stream) : IO Unit := do
